@@ -710,9 +710,25 @@ def install(S):
                     raise Gap('PrefixedStorage::range with upper bound')
                 order = I.val(st3, args[3])
                 desc = isinstance(order, Agg) and order.vname == 'Descending'
-                for st4, items in E.range(st3, p.fields[0], (), descending=desc):
-                    if lo.variant == 1:
-                        raise Gap('PrefixedStorage::range with lower bound')
+                lo_ = None
+                if lo.variant == 1:
+                    # inclusive lower bound on 8-byte big-endian keys: be(n) keeps ids >= n; be(n) followed by further bytes
+                    # (the exclusive-cursor idiom be(n) ++ [1]) keeps ids > n
+                    lv = I.val(st3, lo.fields[0])
+                    while isinstance(lv, Ref):
+                        lv = I.val(st3, lv)
+                    if not isinstance(lv, KeyV) or not lv.parts:
+                        raise Gap('PrefixedStorage::range lower bound %r' % (lv,))
+                    head = lv.parts[0]
+                    n_ = head[1] if isinstance(head, tuple) and len(head) == 2 and head[0] == 'n' else head
+                    if isinstance(n_, tuple) or isinstance(n_, (bytes, str)):
+                        raise Gap('PrefixedStorage::range lower bound %r' % (lv,))
+                    extra = lv.parts[1:]
+                    if any(not (isinstance(x, tuple) and x[0] == 'b') for x in extra):
+                        raise Gap('PrefixedStorage::range lower bound %r' % (lv,))
+                    strict = any(len(x[1]) > 0 for x in extra)
+                    lo_ = n_ + 1 if strict else n_
+                for st4, items in E.range(st3, p.fields[0], (), descending=desc, lo=lo_):
                     res = [Agg('()', (KeyV(key), JsonV(val))) for key, val in items]
                     yield st4, Iter('vec', items=tuple(res), pos=0)
     A('PrefixedStorage::range', r'<(Readonly)?PrefixedStorage as Storage>::range$', h_ps_range)
